@@ -105,7 +105,7 @@ def tree_obs(t):
             if k > 100000:
                 raise RuntimeError("traverse does not terminate")
         return out
-    return {"parent": [opt(p) for p in t.parent],
+    return {"root": int(t.root), "parent": [opt(p) for p in t.parent],
             "children": [ints(c) for c in t.children],
             "edges": [ints(e) for e in t.edges],
             "bfs": trav("BFS"), "dfs": trav("DFS")}
@@ -190,10 +190,12 @@ def run_case(case):
 
 def main():
     payload = json.load(sys.stdin)
+    import mouette  # noqa  (imported before any alarm is armed: the import can be slow on a loaded machine)
+    from mouette.processing import trees  # noqa
     signal.signal(signal.SIGALRM, _alarm)
     out = []
     for case in payload["cases"]:
-        signal.alarm(int(payload.get("case_timeout", 20)))
+        signal.alarm(int(payload.get("case_timeout", 60)))
         try:
             out.append(run_case(case))
         except CaseTimeout:
